@@ -25,7 +25,7 @@ def fstr_bytes_one_total(v: int) -> bool:
     post: _
     """
     from harness.strkern import _fstr_bytes
-    return _fstr_bytes(bytes([v]), 15, True)
+    return _fstr_bytes(bytes([v]), 15, True, True)
 
 
 def one_byte_known(v):
@@ -54,7 +54,7 @@ def obligations(tier, seed):
         dict(name='C08a.option_vectors', fn='minify_total', timeout=t, shards=([top((ov * 5 + seed) % 16) + q + ovb(ov) for ov in dev] if tier == 'quick' else [top(i, 2) + ovb(ov) for ov in dev for i in range(4)]),
              bounds='single-option deviations %r x all statement templates x child kinds' % (dev,)),
         dict(name='C08b.integer_total', fn='integer_total', timeout=t, shards=[[]], bounds='13 representative digit counts around the hex/decimal cross-over and the 4300-digit limit x 10 previous-token classes', public_replay='public_integer_total'),
-        dict(name='C08b.fstr_str_total', fn='fstr_str_total', timeout=t, shards=[['len(s) <= %d' % n]], bounds='|s| <= %d, PEP 701, all quotes' % n,
+        dict(name='C08b.fstr_str_total', fn='fstr_str_total', timeout=t, shards=[['len(s) <= %d' % n, 'not has_surrogate(s)']], bounds='|s| <= %d over all non-surrogate Unicode, PEP 701, all quotes (surrogates: alphabet variant)' % n,
              public_replay='public_nested_str'),
         dict(name='C08b.fstr_str_total_alpha', fn='fstr_str_total_alpha', timeout=t, shards=[['n <= %d' % n]], bounds='alphabet incl. NUL and surrogates'),
         dict(name='C08b.fstr_bytes_total_alpha', fn='fstr_bytes_total_alpha', timeout=t, shards=[['n <= %d' % n]], bounds='byte alphabet'),
